@@ -44,6 +44,11 @@ def run(ck):
     formatters_render_captured_state(ck)
     no_pointer_identity(ck)
     only_stop_paths_stop(ck)
+    ck.rule("C03-O12", "what the logger thread delivers reaches every sink: the Sink adapter runs send() exactly once per message on every path - no re-entrancy guard, rate limit or "
+                       "'busy' flag that drops a message handed over while an earlier send() is still running (a sink that spins an event loop inside send() gets the queued hand-off "
+                       "events delivered there)")
+    from rules.c01 import adapters
+    adapters(ck, only_sink_rid="C03-O12")
     for inst in sorted([F.flat(f) for f in F.fn_all(OT + "::process") if f.d.get("inst")], key=lambda f: f.name):
         handoff(ck, inst)
     ck.require(len([f for f in F.fn_all(OT + "::process") if f.d.get("inst")]) >= 2, "OwnThreadHandler instantiations not found")
